@@ -6,4 +6,5 @@ Extraction Blacklist List String Int.
 Extraction "emitstate.ml" EmitStateModel.step EmitStateModel.init_state EmitStateModel.model_constants
   EmitStateModel.failed EmitStateModel.prune EmitStateModel.run EmitStateModel.persistent EmitStateModel.node_active_mark
   EncPathModel.rel_cmd EncPathModel.path_constants EncPathModel.rel_result
-  C14MemPathModel.mem_cmd C14MemPathModel.mem_path_constants C14MemPathModel.x86_add_mem C14MemPathModel.vsib_cmd.
+  C14MemPathModel.mem_cmd C14MemPathModel.mem_path_constants C14MemPathModel.x86_add_mem C14MemPathModel.vsib_cmd C14MemPathModel.pushpop_cmd
+  C14MemPathModel.a64_ldst_cmd C14MemPathModel.a64_path_constants C14MemPathModel.shift_cmd C14MemPathModel.vsib2_cmd.
